@@ -345,6 +345,184 @@ def probe_inflight():
     return res
 
 
+# ---- the conditional-request cache of the GitHub client (Model/CondCache.v) -------------------------------------
+# resource number -> (url, params): what a GET addresses.  2 and 3 differ in a parameter VALUE only, 4 and 5 in the
+# order the parameters were written (the same resource: they get the same number through CC_SAME)
+CC_RES = [('/repos/o/r/commits/aaaa/status', {}), ('/repos/o/r/commits/bbbb/status', {}),
+          ('/repos/o/r/actions/runs', {'head_sha': 'aaaa'}), ('/repos/o/r/actions/runs', {'head_sha': 'bbbb'}),
+          ('/repos/o/r/actions/runs', {'head_sha': 'aaaa', 'event': 'push'}),
+          ('/repos/o/r/actions/runs', {'event': 'pull_request', 'head_sha': 'aaaa'}),
+          ('/repos/o/r/actions/runs', {'event': 'push', 'head_sha': 'aaaa'})]
+CC_SAME = {6: 4}          # resource 6 is resource 4 written in another order
+
+
+def probe_mk_key():
+    """Client._mk_key on every pair of the probe requests: equal keys exactly for the same resource."""
+    from bert_e.git_host import github
+    c = github.Client('login', 'password', 'e@x.org', base_url='http://gh.test')
+    keys = [c._mk_key(c._patch_url(u), dict(p)) for u, p in CC_RES]
+    bad = []
+    for i in range(len(CC_RES)):
+        for j in range(len(CC_RES)):
+            same = CC_SAME.get(i, i) == CC_SAME.get(j, j)
+            try:
+                eq = keys[i] == keys[j] and hash(keys[i]) == hash(keys[j])
+            except TypeError:
+                eq = None
+            if eq is not same:
+                bad.append((i, j))
+    return {'separates': not bad, 'pairs': len(CC_RES) ** 2, 'bad': bad[:6]}
+
+
+class _CondHost:
+    """Scripted host for Model/CondCache.v: per resource a content and the logical time of its last change; validators
+    by mode (N none, D Last-Modified, T ETag = hash of the content); honours If-None-Match / If-Modified-Since."""
+    BASE = 1700000000
+
+    def __init__(self, mode):
+        self.mode, self.clock, self.res, self.log = mode, 0, {}, []
+
+    @staticmethod
+    def canon(url):
+        from urllib.parse import urlsplit, parse_qsl
+        u = urlsplit(url)
+        return (u.path, tuple(sorted(parse_qsl(u.query))))
+
+    def change(self, key, content):
+        m, c = self.res.get(key, (0, 0))
+        if c != content:
+            self.clock += 1
+            self.res[key] = (self.clock, content)
+
+    def send(self, request, **kw):
+        import datetime
+        import requests
+        from email.utils import formatdate, parsedate_to_datetime
+        key = self.canon(request.url)
+        mtime, content = self.res.get(key, (0, 0))
+        etag = '"c%d"' % content
+        inm, ims = request.headers.get('If-None-Match'), request.headers.get('If-Modified-Since')
+        nm = False
+        if inm:
+            nm = inm == etag
+        elif ims:
+            try:
+                nm = parsedate_to_datetime(ims).timestamp() >= self.BASE + mtime
+            except (TypeError, ValueError):
+                nm = False
+        r = requests.Response()
+        r.status_code = 304 if nm else 200
+        r._content = b'' if nm else json.dumps({'v': content}).encode()
+        if self.mode == 'D':
+            r.headers['Last-Modified'] = formatdate(self.BASE + mtime, usegmt=True)
+        elif self.mode == 'T':
+            r.headers['ETag'] = etag
+        r.headers['Content-Type'] = 'application/json'
+        r.url, r.request, r.encoding, r.elapsed = request.url, request, 'utf-8', datetime.timedelta(0)
+        self.log.append((key, r.status_code))
+        return r
+
+    def close(self):
+        pass
+
+
+def cc_impl(mode, ops):
+    """The real github.Client.get over the scripted host: answers of the Gets, what the host held at each Get, and
+    the number of 304s."""
+    from bert_e.git_host import github
+    host = _CondHost(mode)
+    c = github.Client('login', 'password', 'e@x.org', base_url='http://gh.test')
+    c.session.mount('http://', host)
+    got, held = [], []
+    for o in ops:
+        url, params = CC_RES[o[1]]
+        key = _CondHost.canon('http://gh.test' + url + '?' + '&'.join('%s=%s' % kv for kv in params.items()))
+        if o[0] == 'C':
+            host.change(key, o[2])
+        else:
+            try:
+                got.append(c.get(url, params=dict(params))['v'])
+            except Exception as exc:
+                got.append('raised %s' % type(exc).__name__)
+            held.append(host.res.get(key, (0, 0))[1])
+    return got, held, sum(1 for _k, st in host.log if st == 304)
+
+
+def cc_term(mode, ops):
+    m = {'N': 'HNone', 'D': 'HDate', 'T': 'HTag'}[mode]
+    body = '; '.join('Get %d' % CC_SAME.get(o[1], o[1]) if o[0] == 'G' else
+                     'Change %d %d' % (CC_SAME.get(o[1], o[1]), o[2]) for o in ops)
+    return 'answers key_id %s [%s]' % (m, body)
+
+
+def condcache_corr(ctx, cases=None):
+    """Model/CondCache.v against the real client: the same request / change sequences on both; the model side is
+    evaluated by the Coq kernel (vm_compute on the definitions the theorem is about)."""
+    import logging
+    logging.disable(logging.CRITICAL)
+    rng = ctx.rng
+    if cases is None:
+        cases = []
+        for _ in range(120 if ctx.quick else 1500):
+            ops = []
+            for _i in range(rng.randint(2, 9)):
+                r = rng.choice([2, 3, 2, 3, 0, 1, 4, 5, 6])
+                ops.append(('G', r) if rng.random() < 0.6 else ('C', r, rng.randint(0, 3)))
+            for mode in 'NDT':
+                cases.append((mode, ops))
+        # the shape of the quantifier: one commit fetched, then another one that changed earlier
+        for mode in 'NDT':
+            cases.append((mode, [('C', 3, 2), ('C', 2, 1), ('G', 2), ('G', 3), ('G', 2), ('G', 3)]))
+    items = []
+    n304 = 0
+    for mode, ops in cases:
+        got, held, k = cc_impl(mode, ops)
+        n304 += k
+        ctx.evaluations += 1
+        inp = {'conditional_cache': True, 'validators': {'N': 'none', 'D': 'Last-Modified', 'T': 'ETag'}[mode],
+               'ops': [list(o) for o in ops], 'resources': [[u, p] for u, p in CC_RES]}
+        if got != held:
+            ctx.violation(inp, held, got, 'a GET of the GitHub client returned something else than what the host holds '
+                          'for the requested resource (answered from the conditional-request cache)',
+                          key=core.canon({'what': 'conditional cache', 'validators': mode}))
+        if k:
+            ctx.seen_nontrivial(('cc', mode, tuple(map(tuple, ops))))
+        if all(isinstance(g, int) for g in got):
+            items.append((inp, cc_term(mode, ops), '[%s]' % '; '.join(map(str, got))))
+    ctx.count('conditional_cache_sequences', len(cases))
+    ctx.count('conditional_cache_304', n304)
+    # kernel evaluation of the model on the same sequences
+    d = os.path.join(core.BUILD, 'cross', 'C17cc')
+    os.makedirs(d, exist_ok=True)
+    for lo in range(0, len(items), 600):
+        part = items[lo:lo + 600]
+        lines = ['From Coq Require Import List Arith.', 'Require Import BertE.Model.CondCache.', 'Import ListNotations.']
+        for i, (_inp, lhs, rhs) in enumerate(part):
+            lines.append('Example cc_%d : (%s) = (%s).\nProof. vm_compute. reflexivity. Qed.' % (i, lhs, rhs))
+        path = os.path.join(d, 'cases_%d.v' % lo)
+        with open(path, 'w') as f:
+            f.write('\n'.join(lines) + '\n')
+        with core.Lock():
+            rc, out = core.sh('timeout 900 coqc -Q %s BertE -w -notation-overridden %s' % (core.COQ, os.path.basename(path)),
+                              cwd=d)
+        if rc != 0:
+            import re
+            m = re.search(r'line (\d+)', out)
+            bad = None
+            if m:
+                text = open(path).read().split('\n')
+                for j in range(min(int(m.group(1)), len(text)) - 1, -1, -1):
+                    mm = re.match(r'^Example cc_(\d+) ', text[j])
+                    if mm:
+                        bad = part[int(mm.group(1))]
+                        break
+            ctx.mismatch(bad[0] if bad else {'conditional_cache': True, 'file': path}, bad[2] if bad else 'client',
+                         'vm_compute of %s disagrees: %s' % (bad[1] if bad else '?', out[-600:]),
+                         'CondCache.answers (Coq kernel) vs github.Client.get')
+    ctx.count('conditional_cache_kernel_evaluated', len(items))
+    logging.disable(logging.NOTSET)
+
+
 def gen_facts(ctx):
     f = read_facts()
     ctx.extra['facts'] = {k: f[k] for k in ('g_status', 'g_suite', 'g_bb', 'hit_gh', 'hit_bb', 'keep', 'size')}
@@ -356,6 +534,12 @@ Definition inflight_guard_check_suite : bool := %s.
 Definition inflight_guard_poll_github : bool := %s.
 Definition inflight_guard_poll_bitbucket : bool := %s.
 ''' % (coq_bool(g['suite']), coq_bool(g['poll_gh']), coq_bool(g['poll_bb']))
+    k = probe_mk_key()
+    ctx.extra['facts_mk_key'] = k
+    text += '''(* observed on the running code: Client._mk_key gives two of the %d probe requests the same key exactly when
+   they address the same resource (same URL, same parameter names and values) - harness/props/c17.py: probe_mk_key *)
+Definition mk_key_separates_resources : bool := %s.
+''' % (len(CC_RES), coq_bool(k['separates']))
     return {'Generated/Facts_C17.v': text}
 
 
@@ -1302,12 +1486,16 @@ def run(ctx, replay_input=None):
     rng = ctx.rng
     try:
         if replay_input is not None:
-            if replay_input.get('kind') == 'agg':
+            if replay_input.get('conditional_cache'):
+                mode = {'none': 'N', 'Last-Modified': 'D', 'ETag': 'T'}[replay_input['validators']]
+                condcache_corr(ctx, [(mode, [tuple(o) for o in replay_input['ops']])])
+            elif replay_input.get('kind') == 'agg':
                 check_agg(ctx, [[tuple(r) for r in replay_input['runs']]], 'replay', validate=False)
             else:
                 check_seq(ctx, None, [(replay_input['host'], replay_input.get('mode', 'fast'), replay_input['size'],
                                        [op_from_json(o) for o in replay_input['ops']])], 'replay')
             return
+        condcache_corr(ctx)
         # 1. corpus ---------------------------------------------------------------------------------
         for fname, data in corpus_cases():
             inp = data['input']
